@@ -1304,6 +1304,9 @@ class ListBox(Widget, WidgetContainerMixin):
             if key is None:
                 self.make_cursor_visible((maxcol, maxrow))
                 return None
+            if self._body.get_focus()[0] is None:
+                # the focus widget's keypress emptied the list: nothing to move to
+                return key
 
         def actual_key(unhandled) -> str | None:
             if unhandled:
